@@ -20,7 +20,9 @@ The hypothesis on the payloads' end keeps the truncated-UTF-8 tail fix from
 firing (it appends one `?` after a payload that ends in the middle of a
 multi-byte sequence when the mode is switched there, and nothing otherwise —
 which is why the property restricts these two equalities to valid UTF-8;
-`tail_fix_visible`). Single bytes (`SafeByte`, `UnsafeByte`) are taken ASCII:
+`tail_fix_visible`). Runes need no hypothesis: `utf8.EncodeRune` always yields a
+complete character (`valid_encodeRune`, invalid runes encode U+FFFD). Single
+bytes (`SafeByte`, `UnsafeByte`) are taken ASCII:
 an unsafe non-ASCII byte is replaced by `?` (C11). The theorems keep the suffix
 `_partial` for that restriction and because `Print/Printf` on the adapter
 (nested printers) belong to the printer model, not to this call alphabet.
@@ -34,8 +36,8 @@ def CleanW : WOp → Prop
   | .unsafeString p => EndsRune p
   | .safeByte x => x < 0x80
   | .unsafeByte x => x < 0x80
-  | .safeRune r => EndsRune (encodeRune r)
-  | .unsafeRune r => EndsRune (encodeRune r)
+  | .safeRune _ => True
+  | .unsafeRune _ => True
   | .print r => Obtainable r ∧ RuneEnd (tokenize r)
 
 /-- What a call contributes to the stripped reading. -/
@@ -105,10 +107,10 @@ theorem builderOps_K (b : Buffer) (w : WOp) (acc dacc : List Tok) (k : KInv b ac
     rw [writeByte_ascii _ x (sm .unsafeEsc).inv hx]
     simpa [md, pendPlainT, pendSafeT, plainW, safeW, tokenize_ascii x hx, escT] using this
   | safeRune r =>
-    have := write_K _ (encodeRune r) acc dacc (sm .safeEsc) (fun h => by rw [md] at h; cases h) (fun _ => hw)
+    have := write_K _ (encodeRune r) acc dacc (sm .safeEsc) (fun h => by rw [md] at h; cases h) (fun _ => endsRune_encodeRune r)
     simpa [builderOps, Buffer.run, Buffer.step, Buffer.writeRune, Buffer.write, md, pendPlainT, pendSafeT, plainW, safeW] using this
   | unsafeRune r =>
-    have := write_K _ (encodeRune r) acc dacc (sm .unsafeEsc) (fun h => by rw [md] at h; cases h) (fun _ => hw)
+    have := write_K _ (encodeRune r) acc dacc (sm .unsafeEsc) (fun h => by rw [md] at h; cases h) (fun _ => endsRune_encodeRune r)
     simpa [builderOps, Buffer.run, Buffer.step, Buffer.writeRune, Buffer.write, md, pendPlainT, pendSafeT, plainW, safeW] using this
   | print r =>
     have := write_K _ r acc dacc (sm .raw) (fun _ => hw) (fun h => by rw [md] at h; exact absurd rfl h)
@@ -191,10 +193,10 @@ theorem adapterStep_K (p : PPB) (w : WOp) (acc dacc : List Tok) (k : KInv p.buf 
     simpa [adapterStep, PPB.startUnsafe, PPB.restore, PPB.onBuf, ho, pendPlainT, pendSafeT, plainW, safeW,
       tokenize_ascii x hx, escT] using this
   | safeRune r =>
-    have := bracket_K p.buf .safeEsc (by decide) (·.writeRune r) acc dacc _ _ k (wr .safeEsc (by decide) (encodeRune r) hw)
+    have := bracket_K p.buf .safeEsc (by decide) (·.writeRune r) acc dacc _ _ k (wr .safeEsc (by decide) (encodeRune r) (endsRune_encodeRune r))
     simpa [adapterStep, PPB.startSafeOverride, PPB.restore, PPB.onBuf, ho, pendPlainT, pendSafeT, plainW, safeW] using this
   | unsafeRune r =>
-    have := bracket_K p.buf .unsafeEsc (by decide) (·.writeRune r) acc dacc _ _ k (wr .unsafeEsc (by decide) (encodeRune r) hw)
+    have := bracket_K p.buf .unsafeEsc (by decide) (·.writeRune r) acc dacc _ _ k (wr .unsafeEsc (by decide) (encodeRune r) (endsRune_encodeRune r))
     simpa [adapterStep, PPB.startUnsafe, PPB.restore, PPB.onBuf, ho, pendPlainT, pendSafeT, plainW, safeW] using this
 
 
